@@ -374,6 +374,7 @@ func skipString(src string, pos int) (ret int, ep int) {
 	sp += 1
 
 	ep = -1
+	closed := false
 	for sp < se {
 		c := *(*byte)(unsafe.Pointer(sp))
 		if c == '\\' {
@@ -385,11 +386,13 @@ func skipString(src string, pos int) (ret int, ep int) {
 		}
 		sp += 1
 		if c == '"' {
+			closed = true
 			break
 		}
 	}
 
-	if sp > se {
+	// the input ended before the closing quote
+	if !closed || sp > se {
 		return -int(types.ERR_EOF), -1
 	}
 
